@@ -313,11 +313,20 @@ def chk_orbit_card(res, orbit, modes):
     if exact >= 2:
         res.nt += 1
     case = {"kind": "orbit_cardinality", "orbit": orbit, "modes": modes}
+    arg = list(orbit)
     try:
-        r = sim.orbit_cardinality(list(orbit), modes)
+        r = sim.orbit_cardinality(arg, modes)
     except Exception as e:  # noqa: BLE001
         res.violation(f"C19|orbit_cardinality|raises|{type(e).__name__}", f"orbit_cardinality({orbit}, {modes}) raised {e!r}", case)
         return
+    if arg != orbit:
+        # two-step history on one list object: the second answer must still be the exact count
+        m2 = max(len(orbit), 1)
+        try:
+            r2 = sim.orbit_cardinality(arg, m2)
+        except Exception as e:  # noqa: BLE001
+            r2 = repr(e)
+        res.violation("C19|orbit_cardinality|mutates-input", f"orbit_cardinality({orbit}, {modes}) changed the caller's list to {arg}; asking the same list again for {m2} modes gives {r2!r}, exact count {exact_orbit_card(orbit, m2)}", case)
     if not same_number(r, exact):
         if len(orbit) > modes:
             res.violation("C19|orbit_cardinality|exact-count|orbit-longer-than-modes", f"orbit_cardinality({orbit}, {modes}) = {r!r}; no {modes}-mode sample has {len(orbit)} occupied modes, the count is 0", case)
@@ -821,6 +830,23 @@ def _cmp_menu(res, draw, adm, sig, desc, case, nodes_menu=False):
         res.violation(sig, f"{desc()}: np.random.choice was offered {len(draw.menu)} candidates, the documented rule admits {len(adm)}: {adm}", case)
 
 
+class InputMutated(Exception):
+    """a helper changed the caller's node list or graph"""
+
+
+def kept(gc, seed, f):
+    """call f(fresh copy of seed); the caller's list and the graph must come back unchanged."""
+    arg = [list(x) for x in seed] if seed and isinstance(seed[0], (list, tuple)) else list(seed)
+    before = [list(x) for x in arg] if arg and isinstance(arg[0], list) else list(arg)
+    n0, e0 = gc.G.number_of_nodes(), gc.G.number_of_edges()
+    out = f(arg)
+    if arg != before:
+        raise InputMutated(f"argument list {before} came back as {arg}")
+    if (gc.G.number_of_nodes(), gc.G.number_of_edges()) != (n0, e0):
+        raise InputMutated("the input graph was modified")
+    return out
+
+
 def chk_grow(res, gc, S, sel, ref, only=None):
     C = frozenset(S)
     seed = srt(S)
@@ -838,7 +864,7 @@ def chk_grow(res, gc, S, sel, ref, only=None):
 
         cq.c_0 = rec
         try:
-            return cq.grow(list(seed), gc.G, node_select=mk_sel(sel)), calls
+            return kept(gc, seed, lambda a: cq.grow(a, gc.G, node_select=mk_sel(sel))), calls
         finally:
             cq.c_0 = orig
 
@@ -903,7 +929,7 @@ def chk_swap(res, gc, S, sel, ref, only=None):
     seen, complete, badpick, nontriv = set(), only is None, False, False
 
     def call():
-        return cq.swap(list(seed), gc.G, node_select=mk_sel(sel))
+        return kept(gc, seed, lambda a: cq.swap(a, gc.G, node_select=mk_sel(sel)))
 
     for answers, draws, out in runs(call, only):
         if answers is None:
@@ -964,7 +990,7 @@ def chk_search(res, gc, S, iters, sel, ref, only=None):
 
         cq.grow, cq.swap = rg, rs
         try:
-            return cq.search(list(seed), gc.G, iters, node_select=mk_sel(sel)), phases
+            return kept(gc, seed, lambda a: cq.search(a, gc.G, iters, node_select=mk_sel(sel))), phases
         finally:
             cq.grow, cq.swap = og, os_
 
@@ -1030,7 +1056,7 @@ def chk_shrink(res, gc, S, sel, ref, only=None):
 
         cq.is_clique = rec
         try:
-            return cq.shrink(list(seed), gc.G, node_select=mk_sel(sel)), calls
+            return kept(gc, seed, lambda a: cq.shrink(a, gc.G, node_select=mk_sel(sel))), calls
         finally:
             cq.is_clique = orig
 
@@ -1107,7 +1133,7 @@ def chk_resize(res, gc, S, lo, hi, sel, ref, only=None):
     n_up, n_down = max(0, hi - s), max(0, s - lo)
 
     def call():
-        return sg.resize(list(seed), gc.G, lo, hi, mk_sel(sel))
+        return kept(gc, seed, lambda a: sg.resize(a, gc.G, lo, hi, mk_sel(sel)))
 
     for answers, draws, out in runs(call, only):
         if answers is None:
@@ -1196,7 +1222,7 @@ def chk_sg_search(res, gc, subs, lo, hi, max_count, sel, only=None):
 
         sg.resize = rec
         try:
-            return sg.search([list(x) for x in subs], gc.G, lo, hi, max_count=max_count, node_select=mk_sel(sel)), found
+            return kept(gc, [list(x) for x in subs], lambda a: sg.search(a, gc.G, lo, hi, max_count=max_count, node_select=mk_sel(sel))), found
         finally:
             sg.resize = orig
 
